@@ -6,6 +6,7 @@ C04 — obligations over the tables regenerated from the live classes (`Generate
                      family classes and the 3 warps, and what `has_true_inverse` answers, is the table the model's
                      `pinvH` is assembled from (`implOf`)
   family_ok          menpo.transform defines no Homogeneous subclass the model does not know
+  invertible_ok      … and no class mixing in `Invertible` that the model has no theorems for
   pinvWrites_ok      `pseudoinverse()` (and `has_true_inverse`, `pseudoinverse_vector`) writes NO instance attribute on any
                      class: there is no memo that a later mutation could leave stale
   no_writes_live     hence the frame condition of the operation-sequence theorems holds for every class
@@ -20,6 +21,11 @@ open MenpoModel.C04
 theorem dispatch_ok : MenpoModel.Generated.C04.dispatch = expectedDispatch := by decide
 
 theorem family_ok : ∀ c ∈ MenpoModel.Generated.C04.familyClasses, c ∈ Cls.all.map Cls.name := by decide
+
+/-- every class that mixes in `Invertible` is one the model has theorems for (the 12 family classes, the two piecewise
+affine classes and their abstract base, the spline) or one of the two abstract mix-ins -/
+theorem invertible_ok : ∀ c ∈ MenpoModel.Generated.C04.invertibleClasses,
+    c ∈ classNames ++ ["AbstractPWA", "Invertible", "VInvertible"] := by decide
 
 theorem pinvWrites_ok : MenpoModel.Generated.C04.pinvWrites = expectedPinvWrites := by decide
 
